@@ -37,7 +37,7 @@ Record robs := {
 
 Record sobs := {
   so_name : ident;
-  so_status : N;                       (* 0 observed; 3 the generated code of the type does not type-check; 5 not observed *)
+  so_status : N;                       (* 0 observed; 3 the generated code of the type does not type-check; 5 sibling errors / not observed; 6 T or NewT missing *)
   so_own : list mrow;                  (* methods declared on T, except ShootNew *)
   so_mset : list (mrow * path);        (* method set of *T, except ShootNew, with the path of the declaring embedded struct *)
   so_getter : option iobs;
